@@ -199,10 +199,17 @@ def plan(tier: str, seed: int, scale: float = 1.0) -> List[Any]:
     n = ncpu()
     total = int((2400 if tier == 'quick' else 40000) * scale)
     shards = n if tier == 'quick' else 4 * n
-    return [{'n': max(1, total // shards), 'seed': seed * 1000 + i} for i in range(shards)]
+    items: List[Any] = [{'n': max(1, total // shards), 'seed': seed * 1000 + i} for i in range(shards)]
+    if tier == 'thorough':
+        for i in range(n):
+            items.append({'kind': 'atheris', 'seconds': int(300 * scale), 'seed': seed * 1000 + 300 + i})
+    return items
 
 
 def work(item: Dict[str, Any]) -> Acc:
+    if item.get('kind') == 'atheris':
+        from ..core import run_fuzz_item
+        return run_fuzz_item(ID, 'c08', item['seconds'], item['seed'])
     from hypothesis import strategies as st
     from ..gen import docs
     acc = Acc()
